@@ -36,7 +36,7 @@ def drain_size(case):
 class C04(Spec):
     PROP = 'C04'
     MODEL = 'queue'
-    PROOF_MODULES = ['PsiProofs.C04']
+    PROOF_MODULES = ['PsiProofs.C04', 'PsiProofs.C04Append', 'PsiProofs.C03Pause']
     DESIGN_REF = 'DESIGN.md §6 C04'
     TRUST = [
         'modelled, not verified: list/dict/Counter semantics used by cancel/requeue; float -> sample conversion of '
@@ -164,6 +164,55 @@ class C04(Spec):
             ops += [['pop', drain_size(c)], ['pop', 7]]
             c['ops'] = ops
             yield c
+        # a stimulus appended while the queue runs (also while it is paused), with pauses before and after the
+        # append: conservation must hold for the late stimulus too (Lean: conservation_append). The append comes
+        # before the last trial of the early stimuli can have started (an interleaved / blocked queue that has
+        # completed, or a queue that has reported empty, ignores later appends: outside the property).
+        for it in range(30 if tier == 'quick' else 500):
+            nst = rng.randint(2, 4)
+            c = {'kind': 'late-append', 'fs': rng.choice(QC.FS_LIST), 't0': rng.choice([0, 0.5])}
+            c.update(QC.policy_fields(rng.choice(QC.POLICIES), rng, nst))
+            c.pop('build', None)
+            c['stims'] = QC.rand_stims(rng, nst, max_len=9, max_trials=3)
+            nlate = rng.randint(1, nst - 1)
+            for st in c['stims'][nst - nlate:]:
+                st['late'] = 1
+            early = c['stims'][:nst - nlate]
+            limit = sum(s['len'] * s['trials'] for s in early) - max(s['len'] for s in early)
+            if limit < 2:
+                continue
+            ops, played, earlier, j = [], 0, [], 0
+            while j < nlate:
+                n = rng.choice([1, 2, 3, 5])
+                if played + n < limit:
+                    ops.append(['pop', n])
+                    played += n
+                if ops and rng.random() < 0.5:
+                    ts, trials, _ = observe(dict(c, ops=ops))
+                    m = rng.choice(pause_candidates(ts, trials, earlier, rng))
+                    earlier.append(m)
+                    ops.append(['pause', m])
+                    if rng.random() < 0.6:
+                        ops.append(['append', nst - nlate + j])          # appended while paused
+                        j += 1
+                    if rng.random() < 0.3:
+                        ops.append(['pop', rng.choice([1, 4])])
+                    ops.append(['resume', rng.choice([m, m + 1, m + 4, None])])
+                else:
+                    ops.append(['append', nst - nlate + j])
+                    j += 1
+            for r in range(rng.randint(1, 3)):
+                ops.append(['pop', rng.choice([2, 5, 8, 13, 21, 40])])
+                ts, trials, _ = observe(dict(c, ops=ops))
+                m = rng.choice(pause_candidates(ts, trials, earlier, rng))
+                earlier.append(m)
+                ops += [['pause', m], ['resume', rng.choice([m, m + 1, m + 4, ts, None])]]
+            ops += [['pop', drain_size(c)], ['pop', 7]]
+            c['ops'] = ops
+            if it % 2:
+                QC.spell(rng, c, p=1.0)
+                c.pop('build', None)
+            yield c
         # pauses exactly at trial ends, latest first, across sampling rates
         reps = 1 if tier == 'quick' else 6
         for fs in QC.FS_LIST:
@@ -231,11 +280,21 @@ class C04(Spec):
         clock = 0
         resume_at = None     # position at which the next trial must start
         cut = False          # a pause(t) put the queue in the "nothing playing" state
-        rem = list(req)
+        rem = [r for r, st in zip(req, c['stims']) if not st.get('late')]   # late stimuli: keys follow on append
+        was_empty = False
         for s in tr.steps:
             op = s['op']
             if s['status'] == 'dead':
                 break
+            if op[0] == 'append':
+                if s['status'] != 'ok':
+                    return f'{op} raised: {s["status"]}'
+                if was_empty or all(r <= 0 for r in rem):
+                    # appended to a queue that has finished (reported empty / no counter positive, which is when an
+                    # interleaved or blocked queue has completed): it stays finished — outside the property
+                    return None
+                rem = rem + [req[op[1]]]
+                continue
             if op[0] == 'pause' and op[1] is not None and op[1] > clock:
                 if s['status'] != 'err ValueError':
                     return f'pause at sample {op[1]} with the clock at {clock} was not rejected with ValueError: {s["status"]}'
@@ -274,7 +333,7 @@ class C04(Spec):
                     if dup:
                         return (f'pause({m}): trial(s) {desc(sorted(set(dup)))} (key, start) received "removed" more than once')
                     return (f'pause({m}): "removed" sent for {desc(sorted(rm))}, trials ending after {m} are {desc(want)} (key, start)')
-                for key in range(nst):
+                for key in range(len(s['rem'])):
                     cnt = sum(1 for u in rm if live[u][0] == key)
                     if s['rem'][key] - rem[key] != cnt:
                         return (f'pause({m}): {cnt} trial(s) of key {key} cancelled but remaining_trials went '
@@ -293,7 +352,8 @@ class C04(Spec):
             rem = s['rem']
             clock = s['ts']
             if s['empty']:
-                for key in range(nst):
+                was_empty = True
+                for key in range(len(s['rem'])):
                     kept = sum(1 for u, (k2, _) in live.items() if k2 == key and u not in removed)
                     if (kept != req[key]) if exact else (kept < req[key]):
                         return (f'queue reports empty after {op}: key {key} has {kept} non-cancelled presentations, '
